@@ -331,37 +331,92 @@ pub fn run_pty_in(scratch: &Scratch, asm: &Path, minimal: bool, cols: u16, histo
     run
 }
 
-/// The prompt redraws in the terminal output: (line text, 1-based cursor column).
+/// The prompt redraws in the terminal output, as a terminal would show them: (text of the
+/// edited line, cursor position in characters from its start).
+///
+/// The output is run through a one-line terminal emulator (printable characters, `\r`, `\n`,
+/// erase-in-line, cursor-to-column; colours are ignored); a redraw is complete when the cursor
+/// is put to its column. The prompt is whatever the first redraw shows (the edited line is
+/// empty then), so neither its wording nor the escape sequences used to draw it matter.
 pub fn redraws(tty: &[u8]) -> Vec<(String, usize)> {
-    const CLEAR: &[u8] = b"\x1b[2K\x1b[1G";
-    let mut out = Vec::new();
-    let mut at = 0usize;
-    while let Some(pos) = tty[at..].windows(CLEAR.len()).position(|w| w == CLEAR) {
-        let start = at + pos + CLEAR.len();
-        at = start;
-        let rest = &tty[start..];
-        // Optional colour, prompt, optional reset
-        let Some(p) = rest.windows(6).position(|w| w == b"lace~ ") else {
-            continue;
-        };
-        if p > 16 {
+    let text = String::from_utf8_lossy(tty);
+    let chars: Vec<char> = text.chars().collect();
+    let mut line: Vec<char> = Vec::new();
+    let mut col = 0usize;
+    let mut shots: Vec<(String, usize)> = Vec::new();
+    let mut i = 0usize;
+    while i < chars.len() {
+        let c = chars[i];
+        if c == '\u{1b}' && chars.get(i + 1) == Some(&'[') {
+            // Control sequence: parameters, then one final letter
+            let mut j = i + 2;
+            let mut params = String::new();
+            while j < chars.len() && !chars[j].is_ascii_alphabetic() && chars[j] != '~' {
+                params.push(chars[j]);
+                j += 1;
+            }
+            let final_byte = chars.get(j).copied().unwrap_or('m');
+            let first: usize = params.split(';').next().and_then(|p| p.parse().ok()).unwrap_or(0);
+            match final_byte {
+                'K' => match first {
+                    0 => line.truncate(col),
+                    1 => {
+                        for k in 0..col.min(line.len()) {
+                            line[k] = ' ';
+                        }
+                    }
+                    _ => line.clear(),
+                },
+                'G' => {
+                    col = first.max(1) - 1;
+                    // (a cursor put to the first column of an empty line is the start of a redraw,
+                    // not its end)
+                    if !(col == 0 && line.is_empty()) {
+                        shots.push((line.iter().collect(), col));
+                    }
+                }
+                'C' => col += first.max(1),
+                'D' => col = col.saturating_sub(first.max(1)),
+                _ => {}
+            }
+            i = j + 1;
             continue;
         }
-        let mut text_start = p + 6;
-        if rest[text_start..].starts_with(b"\x1b[0m") {
-            text_start += 4;
+        match c {
+            '\r' => col = 0,
+            '\n' => {
+                line.clear();
+                col = 0;
+            }
+            '\u{8}' => col = col.saturating_sub(1),
+            c if (c as u32) < 0x20 => {}
+            c => {
+                while line.len() < col {
+                    line.push(' ');
+                }
+                if col < line.len() {
+                    line[col] = c;
+                } else {
+                    line.push(c);
+                }
+                col += 1;
+            }
         }
-        // Text up to the cursor positioning escape
-        let Some(esc) = rest[text_start..].windows(2).position(|w| w == b"\x1b[") else {
-            continue;
-        };
-        let text = String::from_utf8_lossy(&rest[text_start..text_start + esc]).into_owned();
-        let digits: String = rest[text_start + esc + 2..].iter().take_while(|b| b.is_ascii_digit()).map(|b| *b as char).collect();
-        let after = text_start + esc + 2 + digits.len();
-        if rest.get(after) != Some(&b'G') {
-            continue;
-        }
-        out.push((text, digits.parse().unwrap_or(0)));
+        i += 1;
     }
-    out
+    // The prompt: what the first redraw shows, with the cursor right behind it
+    let Some((prompt, width)) = shots.first().cloned() else {
+        return Vec::new();
+    };
+    if prompt.chars().count() != width {
+        // Not understood: every redraw as shown, cursor as a column
+        return shots;
+    }
+    shots
+        .into_iter()
+        .map(|(shown, cursor)| match shown.strip_prefix(&prompt) {
+            Some(rest) => (rest.to_string(), cursor.saturating_sub(width)),
+            None => (shown, cursor),
+        })
+        .collect()
 }
